@@ -553,13 +553,6 @@ def rule_FR5(ctx, rep):
 
 
 # ------------------------------------------------------------------------------------------ HS1
-def _subset_loop(fn):
-    loops = [s for s in iter_nodes(fn.node) if isinstance(s, ast.For) and isinstance(s.iter, ast.Call) and attr_tail(s.iter.func) == 'combinations']
-    if len(loops) != 1:
-        raise AnalysisError(f'HS1/KEY1: expected one loop over itertools.combinations in {fn.key}, found {len(loops)}')
-    return loops[0]
-
-
 def _conjuncts(t):
     if isinstance(t, ast.BoolOp) and isinstance(t.op, ast.And):
         out = []
@@ -573,56 +566,85 @@ def _swap_roles(txt, a, b):
     return txt.replace(a, '\0').replace(b, a).replace('\0', b)
 
 
-def _gen_text(fn, lp, tparam=None):
-    """Normalised subset generator with m and t resolved to their definitions."""
-    txt = norm(lp.iter)
-    subst = {}
-    for nm in {n.id for n in ast.walk(lp.iter) if isinstance(n, ast.Name)}:
-        v = astq.sole_definition(fn.node, nm)
-        if v is not None:
-            subst[nm] = norm(v)
-    return txt, subst
+COMBOS = 'itertools.combinations(range(M), M - T)'
+
+
+def _writer_elements(fn):
+    """Element expressions of the list returned by the key writer: comprehension elements and append arguments."""
+    out = []
+    rets = [r for r in iter_nodes(fn.node) if isinstance(r, ast.Return) and r.value is not None]
+    names = set()
+    for r in rets:
+        v = r.value
+        if isinstance(v, ast.ListComp):
+            out.append(v.elt)
+        elif isinstance(v, ast.Name):
+            names.add(v.id)
+    for nm in names:
+        for st, v, how in definitions(fn.node, nm):
+            if isinstance(v, ast.ListComp):
+                out.append(v.elt)
+        for c in calls_named(fn.node, 'append'):
+            if isinstance(c.func, ast.Attribute) and isinstance(c.func.value, ast.Name) and c.func.value.id == nm and c.args:
+                out.append(c.args[0])
+    return out
 
 
 def rule_HS1(ctx, rep):
     """handshake duality: key writer (client) and key reader (server) enumerate the same subsets,
     under swapped roles, with the same key width; pid encoding agrees."""
+    from . import keyenum, routes
     model = ctx.model
     wr = model.func('runtime::Runtime._prss_keys_to_peer')
     rd = model.func('runtime::Runtime._prss_keys_from_peer')
-    lw, lr = _subset_loop(wr), _subset_loop(rd)
-    gw, sw = _gen_text(wr, lw)
-    gr, sr = _gen_text(rd, lr)
-    if gw == gr and sw == sr and sw.get('m') == 'len(self.parties)' and sw.get('t') == 'self.threshold':
-        rep.ok('HS1', wr, lw.iter, f'writer and reader enumerate {gw} with m={sw.get("m")}, t={sw.get("t")}')
-    else:
-        rep.bad('HS1', rd, lr.iter, f'writer enumerates {gw} {sw} but reader enumerates {gr} {sr}: the key stream is cut at wrong positions')
-    # filters
-    def filt(fn, lp):
-        ifs = [s for s in lp.body if isinstance(s, ast.If)]
-        if len(ifs) != 1 or len(lp.body) != 1:
-            raise AnalysisError(f'HS1: subset loop body of {fn.key} is not a single filter')
-        return ifs[0]
-    fw, fr = filt(wr, lw), filt(rd, lr)
     pw, pr = wr.params[1], rd.params[1]
-    cw = cnorm_text(_swap_roles(cnorm(fw.test), 'self.pid', pw))
-    cr = cnorm_text(cnorm(fr.test).replace(pr, '\1').replace('\1', pw)) if pr != pw else cnorm(fr.test)
-    if cw == cr:
-        rep.ok('HS1', rd, fr.test, 'reader filter == writer filter under the role swap self.pid <-> peer_pid')
-    else:
-        rep.bad('HS1', rd, fr.test, f'reader expects keys for subsets with `{norm(fr.test)}`, writer sends for `{norm(fw.test)}`: under the role '
-                'swap these differ, so keys are stored under wrong subsets / the stream is mis-cut')
-    sv = norm(lw.target)
-    if cnorm(fw.test) == cnorm_text(f'{sv}[0] == self.pid and {pw} in {sv}'):
-        rep.ok('HS1', wr, fw.test, 'keys are sent exactly for subsets owned by this party that contain the peer')
-    else:
-        rep.bad('HS1', wr, fw.test, f'writer filter `{norm(fw.test)}` is not "owner is me and peer is a member"')
-    # writer appends the stored key of that subset
-    app = [c for c in calls_named(fw, 'append')]
-    if len(app) == 1 and norm(app[0].args[0]) == f'self._prss_keys[{sv}]':
-        rep.ok('HS1', wr, app[0], 'the key sent is the one stored for that subset')
-    else:
-        rep.bad('HS1', wr, fw, 'the key sent for a subset is not self._prss_keys[subset]')
+    pmr = parents(rd.node)
+    # ---- writer: what is sent, for which subsets
+    elts = _writer_elements(wr)
+    if not elts:
+        raise AnalysisError('HS1: the list of keys returned by _prss_keys_to_peer was not found')
+    ew = None
+    for e in elts:
+        ew = keyenum.enumeration(wr, e, {pw: 'PEER'})
+        if ew is None:
+            rep.bad('HS1', wr, e, 'a key is sent outside any enumeration of key subsets')
+            continue
+        sv = ew.var
+        want = {cnorm_text('S[0] == self.pid'), cnorm_text('PEER in S')}
+        if ew.filters == want:
+            rep.ok('HS1', wr, e, 'keys are sent exactly for subsets owned by this party that contain the peer')
+        else:
+            rep.bad('HS1', wr, e, f'writer filter {sorted(ew.filters)} is not "owner is me and peer is a member": keys of other owners are forwarded / '
+                    'expected keys are not sent, so the reader mis-cuts the key stream')
+        # the key sent is the stored key of that subset
+        ee = routes.xp(wr, e, e, parents(wr.node))
+        vv = ew.binder.value_var
+        if norm(ee) == f'self._prss_keys[{sv}]' or (vv and norm(e) == vv and norm(ew.binder.src) == 'self._prss_keys'):
+            rep.ok('HS1', wr, e, 'the key sent is the one stored for that subset')
+        else:
+            rep.bad('HS1', wr, e, 'the key sent for a subset is not self._prss_keys[subset]')
+    # ---- reader: where the stream is cut
+    sls = [n for n in iter_nodes(rd.node) if isinstance(n, ast.Subscript) and isinstance(n.slice, ast.Slice) and isinstance(n.ctx, ast.Load)
+           and isinstance(n.value, ast.Name) and n.value.id in rd.params]
+    if len(sls) != 1:
+        raise AnalysisError('HS1: the slice cutting a key out of the received data was not found in _prss_keys_from_peer')
+    er = keyenum.enumeration(rd, sls[0], {pr: 'PEER'})
+    if er is None:
+        rep.bad('HS1', rd, sls[0], 'received keys are not cut inside an enumeration of key subsets')
+        return
+    if ew is not None:
+        if ew.base_txt == er.base_txt == cnorm_text(COMBOS):
+            rep.ok('HS1', wr, ew.binder.node, f'writer and reader enumerate {COMBOS} with m = len(self.parties), t = self.threshold')
+        elif ew.base_txt != cnorm_text(COMBOS) and er.base_txt == cnorm_text(COMBOS) and norm(ew.binder.src) == 'self._prss_keys':
+            rep.skip('HS1', wr, ew.binder.node, 'writer enumerates its key table instead of the subsets: order/coverage equivalence not decided')
+        else:
+            rep.bad('HS1', rd, er.binder.node, f'writer enumerates {ew.base_txt} but reader enumerates {er.base_txt}: the key stream is cut at wrong positions')
+        swapped = {cnorm_text(f.replace('self.pid', '\0').replace('PEER', 'self.pid').replace('\0', 'PEER')) for f in ew.filters}
+        if swapped == er.filters:
+            rep.ok('HS1', rd, sls[0], 'reader filter == writer filter under the role swap self.pid <-> peer')
+        else:
+            rep.bad('HS1', rd, sls[0], f'reader expects keys for subsets with {sorted(er.filters)}, writer sends for {sorted(ew.filters)}: under the role '
+                    'swap these differ, so keys are stored under wrong subsets / the stream is mis-cut')
     # key width
     setter = model.func('runtime::Runtime.threshold')   # the later definition (setter) overrides
     toks = calls_named(setter.node, 'token_bytes')
@@ -631,38 +653,51 @@ def rule_HS1(ctx, rep):
     K = const_int(toks[0].args[0])
     if K is None:
         raise AnalysisError('HS1: key size is not an integer literal')
-    # reader: slice [off:off+K], off += K
-    offv = None
-    incs = [s for s in iter_nodes(fr) if isinstance(s, ast.AugAssign) and isinstance(s.op, ast.Add) and isinstance(s.target, ast.Name)]
-    sls = [n for n in ast.walk(fr) if isinstance(n, ast.Subscript) and isinstance(n.slice, ast.Slice) and isinstance(n.ctx, ast.Load)]
+    # reader: slice [off:off+K]; off advances by K once per expected subset (whether or not data is given)
+    sl = sls[0].slice
+    lo = routes.lin(rd, sl.lower, sls[0], pmr) if sl.lower is not None else Lin(0)
+    hi = routes.lin(rd, sl.upper, sls[0], pmr) if sl.upper is not None else None
+    offs = [s_ for s_ in (lo.syms() if lo is not None else []) if not s_.startswith('<')]
     good = False
-    if len(incs) == 1 and len(sls) == 1:
-        offv = incs[0].target.id
-        sl = sls[0].slice
-        lo = to_lin(sl.lower, opaque=False) if sl.lower is not None else Lin(0)
-        hi = to_lin(sl.upper, opaque=False) if sl.upper is not None else None
-        if lo == Lin.sym(offv) and hi is not None and hi == Lin.sym(offv) + K and const_int(incs[0].value) == K:
-            # increment not nested deeper than the filter, after the (conditional) store
-            pmr = parents(rd.node)
-            if len(enclosing_ifs(incs[0], pmr, stop=lr)) == 1:
+    offv = offs[0] if len(offs) == 1 else None
+    inc_nodes = []
+    if offv and lo == Lin.sym(offv) and hi is not None and hi == Lin.sym(offv) + K:
+        for s_ in iter_nodes(er.binder.node):
+            if isinstance(s_, ast.AugAssign) and isinstance(s_.target, ast.Name) and s_.target.id == offv and isinstance(s_.op, ast.Add):
+                if const_int(s_.value) == K:
+                    inc_nodes.append(s_)
+                else:
+                    inc_nodes.append(None)
+            elif isinstance(s_, ast.Assign) and len(s_.targets) == 1 and isinstance(s_.targets[0], ast.Name) and s_.targets[0].id == offv:
+                v = routes.lin(rd, s_.value, s_, pmr)
+                inc_nodes.append(s_ if v is not None and v == Lin.sym(offv) + K else None)
+        if len(inc_nodes) == 1 and inc_nodes[0] is not None:
+            # the increment is governed by the subset filter only (not by `data is not None`)
+            ei = keyenum.enumeration(rd, inc_nodes[0], {pr: 'PEER'})
+            b2, g2 = routes._context(rd, inc_nodes[0], pmr)
+            extra = [t for t, tv in g2 if not any(isinstance(x, ast.Name) and x.id == er.var for x in ast.walk(t))]
+            if ei is not None and ei.filters == er.filters and not extra:
                 good = True
     if good:
         rep.ok('HS1', rd, sls[0], f'reader cuts {K}-byte keys (= token_bytes({K})) at consecutive offsets, counted for every expected subset')
     else:
-        rep.bad('HS1', rd, fr, f'reader does not cut the key stream into consecutive {K}-byte keys counted once per expected subset')
+        rep.bad('HS1', rd, sls[0], f'reader does not cut the key stream into consecutive {K}-byte keys counted once per expected subset')
     # offset starts at 0 and the total is returned
-    init = [s for s in iter_nodes(rd.node) if isinstance(s, ast.Assign) and offv and norm(s.targets[0]) == offv]
+    init = [s_ for s_ in rd.node.body if isinstance(s_, ast.Assign) and offv and norm(s_.targets[0]) == offv]
     rets = [r for r in iter_nodes(rd.node) if isinstance(r, ast.Return)]
     if init and const_int(init[0].value) == 0 and rets and all(r.value is not None and norm(r.value) == offv for r in rets):
         rep.ok('HS1', rd, rets[0], 'size-only call and storing call walk the same enumeration (one function), total length returned')
     else:
         rep.bad('HS1', rd, rd.qualname, 'the reader does not start at offset 0 / does not return the total key length', rd.node)
     # store target keyed by subset
-    st = [s for s in iter_nodes(fr) if isinstance(s, ast.Assign) and isinstance(s.targets[0], ast.Subscript) and mentions_attr(s.targets[0], '_prss_keys')]
-    if len(st) == 1 and norm(st[0].targets[0].slice) == norm(lr.target):
-        rep.ok('HS1', rd, st[0], 'received key stored under its subset')
+    par = pmr.get(id(sls[0]))
+    if isinstance(par, ast.Assign) and par.value is sls[0] and isinstance(par.targets[0], ast.Subscript) and norm(par.targets[0].value) == 'self._prss_keys' \
+            and norm(par.targets[0].slice) == er.var:
+        rep.ok('HS1', rd, par, 'received key stored under its subset')
     else:
-        rep.bad('HS1', rd, fr, 'received key is not stored under the subset it belongs to')
+        rep.bad('HS1', rd, sls[0], 'received key is not stored under the subset it belongs to')
+    dr = model.func(EX + '.data_received')
+    pmd = parents(dr.node)
     # pid encoding
     cm = model.func(EX + '.connection_made')
     dr = model.func(EX + '.data_received')
@@ -722,12 +757,14 @@ def rule_KEY1(ctx, rep):
     setter = model.func('runtime::Runtime.threshold')
     if 'setter' not in ' '.join(setter.decorators):
         raise AnalysisError('KEY1: runtime::Runtime.threshold does not resolve to the property setter')
-    wr = model.func('runtime::Runtime._prss_keys_to_peer')
-    lp = _subset_loop(setter)
-    gs, ss = _gen_text(setter, lp)
-    gw, sw = _gen_text(wr, _subset_loop(wr))
+    from . import keyenum, routes
+    pm = parents(setter.node)
+    toks = calls_named(setter.node, 'token_bytes')
+    if len(toks) != 1:
+        raise AnalysisError('KEY1: secrets.token_bytes call not found in the threshold setter')
+    tok = toks[0]
     tparam = setter.params[1]
-    # t in the setter is the new threshold parameter, stored as self._threshold
+    # t in the setter is the new threshold parameter, stored as self._threshold before the keys are generated
     stores = [s for s in iter_nodes(setter.node) if isinstance(s, ast.Assign) and norm(s.targets[0]) == 'self._threshold' and norm(s.value) == tparam]
     getter_ok = False
     for k, c in model.classes.items():
@@ -736,38 +773,49 @@ def rule_KEY1(ctx, rep):
                 if isinstance(n, ast.FunctionDef) and n.name == 'threshold' and n is not setter.node:
                     r = [x for x in iter_nodes(n) if isinstance(x, ast.Return)]
                     getter_ok = bool(r) and norm(r[0].value) == 'self._threshold'
-    if gs == gw.replace(' t)', f' {tparam})') and ss.get('m') == sw.get('m') and stores and getter_ok and astq.position(stores[0]) < astq.position(lp):
-        rep.ok('KEY1', setter, lp.iter, 'keys generated over the same subset enumeration as the handshake, for the threshold just stored')
+    en = keyenum.enumeration(setter, tok)
+    lp = en.binder.node if en is not None else tok
+    if en is None:
+        rep.bad('KEY1', setter, tok, 'the key stored for a subset is not a fresh secrets.token_bytes() draw per subset (the draw is outside the enumeration '
+                'of subsets): one key is shared by several subsets, so a member of one subset knows the keys of others')
+        rep.bad('KEY1', setter, tok, 'keys are not generated over the enumeration of (m-t)-subsets used by the handshake')
     else:
-        rep.bad('KEY1', setter, lp.iter, f'key generation enumerates {gs} {ss}, the handshake {gw} {sw}: parties disagree on which subsets have keys')
-    ifs = [s for s in lp.body if isinstance(s, ast.If)]
-    sv = norm(lp.target)
-    if len(ifs) == 1 and len(lp.body) == 1 and cnorm(ifs[0].test) == cnorm_text(f'{sv}[0] == self.pid'):
-        rep.ok('KEY1', setter, ifs[0].test, 'a key is generated by exactly one party: the lowest member of the subset')
-    else:
-        rep.bad('KEY1', setter, lp, 'keys are not generated exactly by the lowest member of each subset (the party that is client to all other members)')
-        return
-    gen = [s for s in ifs[0].body if isinstance(s, ast.Assign) and isinstance(s.targets[0], ast.Subscript) and norm(s.targets[0].slice) == sv]
-    if len(gen) == 1 and isinstance(gen[0].value, ast.Call) and norm(gen[0].value.func) == 'secrets.token_bytes':
-        rep.ok('KEY1', setter, gen[0], 'a fresh CSPRNG key per subset (drawn inside the loop)')
-    else:
-        rep.bad('KEY1', setter, ifs[0], 'the key stored for a subset is not a fresh secrets.token_bytes() draw per subset: '
-                'one key is shared by several subsets, so a member of one subset knows the keys of others')
-    kd = norm(gen[0].targets[0].value) if gen else None
-    inst = [s for s in iter_nodes(setter.node) if isinstance(s, ast.Assign) and norm(s.targets[0]) == 'self._prss_keys']
-    if kd and len(inst) == 1 and norm(inst[0].value) == kd:
-        init = astq.sole_definition(setter.node, kd)
-        if isinstance(init, ast.Dict) and not init.keys:
-            rep.ok('KEY1', setter, inst[0], 'old keys are dropped when the threshold changes')
+        want = cnorm_text('itertools.combinations(range(M), M - ' + tparam + ')')
+        if en.base_txt == want and stores and getter_ok and astq.position(stores[0]) < astq.position(lp):
+            rep.ok('KEY1', setter, lp, 'keys generated over the same subset enumeration as the handshake, for the threshold just stored')
         else:
-            rep.bad('KEY1', setter, inst[0], 'the new key table does not start empty')
+            rep.bad('KEY1', setter, lp, f'key generation enumerates {en.base_txt} (expected {want} with the threshold just stored): parties disagree on which subsets have keys')
+        if en.filters == {cnorm_text('S[0] == self.pid')}:
+            rep.ok('KEY1', setter, tok, 'a key is generated by exactly one party: the lowest member of the subset')
+        else:
+            rep.bad('KEY1', setter, lp, f'keys are generated under {sorted(en.filters)}, not exactly by the lowest member of each subset (the party that is client to all other members)')
+        rep.ok('KEY1', setter, tok, 'a fresh CSPRNG key per subset (drawn inside the enumeration)')
+    # stored under its subset, in a table that starts empty and is installed as self._prss_keys
+    par = pm.get(id(tok))
+    kd = None
+    fresh_table = False
+    if en is not None and isinstance(par, ast.Assign) and par.value is tok and isinstance(par.targets[0], ast.Subscript) and norm(par.targets[0].slice) == en.var:
+        kd = norm(par.targets[0].value)
+        init = astq.sole_definition(setter.node, kd) if kd.isidentifier() else None
+        fresh_table = isinstance(init, ast.Dict) and not init.keys
+    elif en is not None and isinstance(par, ast.DictComp) and par.value is tok and norm(par.key) == en.var:
+        p2 = pm.get(id(par))
+        if isinstance(p2, ast.Assign) and p2.value is par:
+            kd = norm(p2.targets[0])
+            fresh_table = True
+    inst = [s for s in iter_nodes(setter.node) if isinstance(s, ast.Assign) and norm(s.targets[0]) == 'self._prss_keys']
+    if kd and (kd == 'self._prss_keys' or (len(inst) == 1 and norm(inst[0].value) == kd)):
+        if fresh_table:
+            rep.ok('KEY1', setter, inst[0] if inst else tok, 'old keys are dropped when the threshold changes')
+        else:
+            rep.bad('KEY1', setter, inst[0] if inst else tok, 'the new key table does not start empty')
     else:
-        rep.bad('KEY1', setter, setter.qualname, 'generated keys are not installed as self._prss_keys', setter.node)
+        rep.bad('KEY1', setter, setter.qualname, 'generated keys are not installed as self._prss_keys under their subset', setter.node)
     # cache invalidation on the generating path
     cc = [c for c in calls_named(setter.node, 'cache_clear') if norm(c.func.value) == 'self.prfs']
     pm = parents(setter.node)
     if cc and not enclosing_ifs(cc[0], pm, stop=setter.node) and not enclosing_loops(cc[0], pm, stop=setter.node) \
-            and not enclosing_ifs(lp, pm, stop=setter.node):
+            and not enclosing_ifs(lp, pm, stop=setter.node):      # NB: the early `return` under no_prss is not an enclosing if
         rep.ok('KEY1', setter, cc[0], 'cached PRFs are invalidated whenever keys are regenerated')
     else:
         rep.bad('KEY1', setter, setter.qualname, 'PRFs cached by prfs() are not invalidated when the keys are regenerated: after a threshold '
